@@ -260,13 +260,27 @@ def _nonull(x):
     return x
 
 
-def validate_observations(module, observations, workdir, name=None, batches=16, timeout=900, consts=''):
+def validate_observations(module, observations, workdir, name=None, batches=16, timeout=900, consts='', dedupe=False):
     """code -> spec: split the observations over `batches` TLC processes running <module>.tla (a fold-style
     validator reading IOEnv.OBS_FILE). Returns (n_validated, rejections[(id, clause)], results)."""
     name = name or module
     os.makedirs(workdir, exist_ok=True)
     if not observations:
         return 0, [], []
+    total = len(observations)
+    same = {}
+    if dedupe:
+        # observations that are identical except for their id are validated once (the verdict is a function of the content)
+        reps = []
+        for o in observations:
+            key = json.dumps({k: v for k, v in o.items() if k != 'id'}, sort_keys=True, default=str)
+            if key in same:
+                same[key].append(o['id'])
+            else:
+                same[key] = [o['id']]
+                reps.append(o)
+        same = {v[0]: v for v in same.values()}
+        observations = reps
     batches = max(1, min(batches, (len(observations) + 199) // 200))
     observations = _nonull(observations)
     chunks = [observations[i::batches] for i in range(batches)]
@@ -291,7 +305,8 @@ def validate_observations(module, observations, workdir, name=None, batches=16, 
     rej = []
     for r in results:
         for t in r.tuples('REJ'):
-            rej.append((t[1], t[2]))
+            for oid in (same.get(t[1]) or [t[1]]):
+                rej.append((oid, t[2]))
     for _, path, _ in jobs:
         os.unlink(path)
-    return len(observations), rej, results
+    return total, rej, results
